@@ -345,24 +345,54 @@ def r3_floor_ceil_pairing(repo=None):
     return r
 
 
+def exists_flag(fn, g=None):
+    """the local of the write loop that says "continue in the open file": the plain local tested alone in a condition from
+    whose false side digital_rf_create_hdf5_file is reached, and that is only ever assigned integer constants"""
+    g = g or _cfg.build_c(fn)
+    locals_ = {d.name for d in fn.find("VarDecl")}
+    creates = [_node_of(g, c).id for c in fn.calls(("digital_rf_create_hdf5_file",))]
+    if not creates:
+        raise AnalysisError("%s: call of digital_rf_create_hdf5_file not found" % fn.name)
+    cands = set()
+    for n in g.nodes:
+        if n.kind == "cond" and n.ast is not None and n.ast.path() in locals_:
+            fs = [b for b, l in g.succ[n.id] if l == "F"]
+            ts = [b for b, l in g.succ[n.id] if l == "T"]
+            # the create call directly follows the false side (not reachable from the true side without leaving the iteration's block)
+            if any(c in g.reach(fs, avoid=ts) for c in creates):
+                v = n.ast.path()
+                sts = [rhs for path, node, rhs, kind in clib.stores(fn) if path == v]
+                if sts and all(kind_ok.strip(casts=True).intval() is not None for kind_ok in sts):
+                    cands.add(v)
+    if len(cands) != 1:
+        raise AnalysisError("%s: the flag that decides between the open file and a new one was not found exactly once (%s)" % (fn.name, sorted(cands)))
+    return cands.pop()
+
+
 def r4_new_file_on_name_change(repo=None):
     r = Rule("C04.R4", "a new file is entered whenever the derived (sub-directory, name) differs from the open file's")
     tu = cfront.lib(repo)
     fn = tu.fn("digital_rf_write_samples_to_file")
     g = _cfg.build_c(fn)
     F = fn.name
+    FE = exists_flag(fn, g)
     ones = [n for n in g.nodes if n.kind == "stmt" and n.ast.kind == "BinaryOperator" and n.ast.opcode == "="
-            and n.ast.children[0].path() == "file_exists" and n.ast.children[1].intval() == 1]
+            and n.ast.children[0].path() == FE and n.ast.children[1].intval() == 1]
     if not ones:
-        raise AnalysisError("assignment file_exists = 1 not found")
+        raise AnalysisError("assignment %s = 1 not found" % FE)
     cmp_nodes = {}
+    # the names derived for this sample: the two buffers handed to digital_rf_get_subdir_file
+    nm = fn.calls(("digital_rf_get_subdir_file",))
+    if len(nm) != 1 or len(nm[0].args) < 4 or None in (alias_path(fn, nm[0].args[2]), alias_path(fn, nm[0].args[3])):
+        raise AnalysisError("%s: the call of digital_rf_get_subdir_file that derives the names was not found exactly once" % F)
+    d_subdir, d_base = alias_path(fn, nm[0].args[2]), alias_path(fn, nm[0].args[3])
     for n in g.nodes:
         if n.kind == "cond" and n.ast is not None:
             for c in n.ast.calls(("strcmp", "strncmp")):
-                a = {c.args[0].path(), c.args[1].path()}
-                if a == {OBJ + "->sub_directory", "subdir"}:
+                a = {alias_path(fn, c.args[0]), alias_path(fn, c.args[1])}
+                if a == {OBJ + "->sub_directory", d_subdir}:
                     cmp_nodes["sub_directory"] = n
-                if a == {OBJ + "->basename", "basename"}:
+                if a == {OBJ + "->basename", d_base}:
                     cmp_nodes["basename"] = n
     for what in ("sub_directory", "basename"):
         if what not in cmp_nodes:
@@ -390,7 +420,7 @@ def r4_new_file_on_name_change(repo=None):
         else:
             r.ok("%s:%s %s" % (LIB, c.line, F), "file_exists = 1 only if strcmp(%s) reports equality" % what)
     # !file_exists reaches digital_rf_create_hdf5_file before any H5Dwrite
-    tests = [n for n in g.nodes if n.kind == "cond" and n.ast is not None and n.ast.path() == "file_exists"]
+    tests = [n for n in g.nodes if n.kind == "cond" and n.ast is not None and n.ast.path() == FE]
     creates = [_node_of(g, c).id for c in fn.calls(("digital_rf_create_hdf5_file",))]
     writes = [_node_of(g, c) for c in fn.calls(("H5Dwrite",))]
     if not tests or not creates or not writes:
